@@ -13,6 +13,18 @@ built from it, and the layout scope: pytree structures with 1-3 leaves of shapes
 in list / tuple / dict (keys inserted in UNSORTED order) / nested / Stokes containers, single-leaf
 containers, mixed dtypes, carrying identity, scalar, diagonal, index, ravel, user-defined pytree->pytree
 atoms (`MixOperator`) and block operators whose blocks have pytree inputs and outputs.
+
+Dtype scope (implementation-side; the model is an exact ring without dtypes): operators whose OUTPUT dtype is
+wider than their input dtype - complex blocks / values on real structures, float parameters on integer
+structures, float32 parameters on float16 structures (values chosen so that a cast to the input dtype is
+visible: non-zero imaginary parts, half-integers, integers above 2048) - and non-float32 data (int32, complex64,
+mixed) under every class; the three dense forms and the probes are compared EXACTLY in complex arithmetic and
+the dtype of both as_matrix forms must be the dtype of the columns op(e_j).  Only operators whose declared output
+structure is what mv returns are generated (C05's `params_not_wider` guard: a @square class - scalar, diagonal,
+Toeplitz - with parameters wider than its data is outside the domain).
+Configuration scope: every evaluation method / tuning parameter of a class - Toeplitz: 4 methods x explicit FFT
+sizes (odd and even, from the smallest admissible 2K-1) x n and K (K > n, n spanning several blocks, batched
+bands); lazy inverses: the solvers of the configuration - with a closed-form NumPy reference of the matrix.
 """
 from __future__ import annotations
 
@@ -31,6 +43,10 @@ OVERRIDING_LEAVES = ('DiagonalOperator', 'SymmetricBandToeplitzOperator', 'Diago
 APPROX_CLASSES = (
     'InverseOperator', 'QURotationOperator', 'QURotationTransposeOperator', 'DiagonalInverseOperator',
 )
+
+F32, I32, C64, F16 = 'float32', 'int32', 'complex64', 'float16'
+TOEPLITZ_APPROX_METHODS = ('fft', 'overlap_save', 'overlap_add')
+SOLVERS = ('CG', 'BiCGStab', 'GMRES', 'NormalCG', 'LU', 'Auto')
 
 
 # ---------------------------------------------------------------------------------------------
@@ -118,9 +134,12 @@ OUT_LAYOUTS = [
 _mix = {}
 
 
-def MixOperator():
+def user_classes():
+    """User-defined operators (direct subclasses of AbstractLinearOperator, generic as_matrix):
+    MixOperator (declares both structures) and ScaleOperator (declares only its input structure: the output
+    structure is the default jax.eval_shape of mv)."""
     if _mix:
-        return _mix['cls']
+        return _mix
     import equinox
 
     j = A.J()
@@ -134,13 +153,15 @@ def MixOperator():
         _out: object = equinox.field(static=True)
 
         def __init__(self, matrix, in_structure, out_structure):
-            self.matrix = jnp.asarray(matrix, dtype=jnp.float32)
+            self.matrix = jnp.asarray(matrix)
             self._in = in_structure
             self._out = out_structure
 
         def mv(self, x):
-            v = jnp.concatenate([l.ravel().astype(jnp.float32) for l in jax.tree.leaves(x)])
-            y = self.matrix @ v
+            xs = jax.tree.leaves(x)
+            dt = jnp.result_type(self.matrix.dtype, *[l.dtype for l in xs])
+            v = jnp.concatenate([l.ravel().astype(dt) for l in xs])
+            y = self.matrix.astype(dt) @ v
             leaves, treedef = jax.tree.flatten(self._out)
             out, pos = [], 0
             for l in leaves:
@@ -155,13 +176,111 @@ def MixOperator():
         def out_structure(self):
             return self._out
 
-    _mix['cls'] = MixOperator
-    return MixOperator
+    class ScaleOperator(j['core'].AbstractLinearOperator):
+        """y[leaf] = values * x[leaf] (values broadcast against every leaf from the right)."""
+
+        values: jax.Array
+        _in: object = equinox.field(static=True)
+
+        def __init__(self, values, in_structure):
+            self.values = jnp.asarray(values)
+            self._in = in_structure
+
+        def mv(self, x):
+            return jax.tree.map(lambda l: self.values * l, x)
+
+        def in_structure(self):
+            return self._in
+
+    _mix['MixOperator'] = MixOperator
+    _mix['ScaleOperator'] = ScaleOperator
+    return _mix
+
+
+def MixOperator():
+    return user_classes()['MixOperator']
+
+
+def np_arr(spec, default=F32):
+    """JSON array parameter -> NumPy array.  A nested list (float32), or {'re': nested, 'im': nested (optional),
+    'dt': dtype}: complex values are written as two real arrays so that a case stays plain JSON."""
+    if not isinstance(spec, dict):
+        return np.array(spec, dtype=np.dtype(default))
+    dt = np.dtype(spec.get('dt', default))
+    re_ = np.array(spec['re'], dtype=np.float64)
+    if 'im' in spec and spec['im'] is not None:
+        return (re_ + 1j * np.array(spec['im'], dtype=np.float64)).astype(dt)
+    return re_.astype(dt)
+
+
+def py_scalar(spec):
+    """JSON scalar -> Python scalar: a number, or {'re':, 'im':} for a Python complex."""
+    if isinstance(spec, dict) and 're' in spec and 'dt' not in spec:
+        return complex(spec['re'], spec.get('im', 0))
+    return spec
+
+
+def solver_config(name, precond=None):
+    """furax Config selecting the linear solver used by InverseOperator.mv (its evaluation method)."""
+    import lineax as lx
+    from furax import Config
+
+    kw = {'solver_callback': A._noop}
+    if name == 'BiCGStab':
+        kw['solver'] = lx.BiCGStab(rtol=1e-6, atol=1e-6)
+    elif name == 'GMRES':
+        kw['solver'] = lx.GMRES(rtol=1e-6, atol=1e-6)
+    elif name == 'NormalCG':
+        kw['solver'] = lx.NormalCG(rtol=1e-6, atol=1e-6)
+    elif name == 'LU':
+        kw['solver'] = lx.LU()
+    elif name == 'Auto':
+        kw['solver'] = lx.AutoLinearSolver(well_posed=True)
+    elif name != 'CG':
+        raise ValueError(name)
+    if precond is not None:
+        kw['solver_options'] = {'preconditioner': precond}
+    return Config(**kw)
 
 
 def build_operand(d, env):
-    if d['k'] == 'mix':
-        return MixOperator()(np.array(d['m'], dtype=np.float32), A.mk_struct(d['s']), A.mk_struct(d['t']))
+    j = A.J()
+    jnp = j['jnp']
+    k = d['k']
+    if k == 'mix':
+        m = np.array(d['m'], dtype=np.float64)
+        if d.get('mi') is not None:
+            m = m + 1j * np.array(d['mi'], dtype=np.float64)
+        m = m.astype(np.dtype(d.get('mdt', C64 if d.get('mi') is not None else F32)))
+        return MixOperator()(m, A.mk_struct(d['s']), A.mk_struct(d['t']))
+    if k == 'uscale':
+        return user_classes()['ScaleOperator'](np_arr(d['v']), A.mk_struct(d['s']))
+    if k == 'dense2':
+        args = (jnp.asarray(np_arr(d['b'])), A.mk_struct(d['s']))
+        return j['dense'].DenseBlockDiagonalOperator(*args, *([d['sub']] if d.get('sub') else []))
+    if k in ('diag2', 'bdiag2'):
+        cls = j['diagonal'].DiagonalOperator if k == 'diag2' else j['diagonal'].BroadcastDiagonalOperator
+        ax = d.get('axis', 0)
+        return cls(jnp.asarray(np_arr(d['v'])), axis_destination=ax if isinstance(ax, int) else tuple(ax), in_structure=A.mk_struct(d['s']))
+    if k == 'homoth2':
+        v = d['v']
+        v = jnp.asarray(np_arr(v)) if isinstance(v, dict) and 'dt' in v else py_scalar(v)
+        return j['core'].HomothetyOperator(v, A.mk_struct(d['s']))
+    if k == 'toeplitz2':
+        kw = {'method': d['method']} if d.get('method') else {}
+        if d.get('fft') is not None:
+            kw['fft_size'] = d['fft']
+        return j['toeplitz'].SymmetricBandToeplitzOperator(jnp.asarray(np_arr(d['band'])), A.mk_struct(d['s']), **kw)
+    if k == 'smul2':
+        return py_scalar(d['c']) * env[d['of']]
+    if k == 'rmul2':
+        return env[d['of']] * py_scalar(d['c'])
+    if k == 'div2':
+        return env[d['of']] / py_scalar(d['c'])
+    if k == 'inv':
+        pre = env[d['precond']] if d.get('precond') else None
+        with solver_config(d.get('solver', 'CG'), pre):
+            return env[d['of']].I
     return A.build_operand(d, env)
 
 
@@ -313,6 +432,120 @@ def classes_in(op, acc=None):
     return acc
 
 
+def is_complex_dtype(dt) -> bool:
+    return bool(np.issubdtype(np.dtype(dt), np.complexfloating))
+
+
+def cflat(y) -> np.ndarray:
+    """Flattened pytree in double precision, complex when a leaf is complex (algebra.flat drops imaginary parts)."""
+    leaves = A.J()['jax'].tree.leaves(y)
+    if not leaves:
+        return np.zeros(0)
+    arrs = [np.asarray(l) for l in leaves]
+    wide = np.complex128 if any(np.iscomplexobj(a) for a in arrs) else np.float64
+    return np.concatenate([a.ravel().astype(wide) for a in arrs])
+
+
+def widen(m) -> np.ndarray:
+    m = np.asarray(m)
+    return m.astype(np.complex128 if np.iscomplexobj(m) else np.float64)
+
+
+def cdense(op):
+    """(matrix whose j-th column is op.mv(e_j), promoted dtype of those columns)."""
+    j = A.J()
+    cols, dts = [], set()
+    for x in A.basis_inputs(op.in_structure()):
+        y = op.mv(x)
+        leaves = j['jax'].tree.leaves(y)
+        if leaves:
+            dts.add(str(j['jnp'].result_type(*leaves)))
+        cols.append(cflat(y))
+    if not cols:
+        return np.zeros((A.struct_size(op.out_structure()), 0)), None
+    m = np.stack(cols, axis=1)
+    return m, (sorted(dts)[0] if len(dts) == 1 else ('/'.join(sorted(dts)) or None))
+
+
+def sub_operators(op):
+    """All operator objects inside op (op included)."""
+    j = A.J()
+    core, blocks = j['core'], j['blocks']
+    out = [op]
+    if isinstance(op, core.CompositionOperator):
+        kids = op.operands
+    elif isinstance(op, core.AdditionOperator):
+        kids = op.operand_leaves
+    elif isinstance(op, blocks.AbstractBlockOperator):
+        kids = op.block_leaves
+    elif hasattr(op, 'operator') and isinstance(op.operator, core.AbstractLinearOperator):
+        kids = [op.operator]
+    else:
+        kids = []
+    for k in kids:
+        out += sub_operators(k)
+    return out
+
+
+def is_approx(op) -> bool:
+    """Inexact arithmetic somewhere inside op: trigonometry, division, iterative solver, FFT."""
+    for o in sub_operators(op):
+        n = type(o).__name__
+        if n in APPROX_CLASSES:
+            return True
+        if n == 'SymmetricBandToeplitzOperator' and o.method in TOEPLITZ_APPROX_METHODS:
+            return True
+    return False
+
+
+def toeplitz_reference(band, shape) -> np.ndarray:
+    """Closed form: block diagonal over the leading axes of T[i, j] = band[|i - j|] if |i - j| < K else 0."""
+    import scipy.linalg
+
+    band = np.asarray(band, dtype=np.float64)
+    n, K = shape[-1], band.shape[-1]
+    bands = np.broadcast_to(band, tuple(shape[:-1]) + (K,)).reshape(-1, K)
+    i, jj = np.indices((n, n))
+    lag = np.abs(i - jj)
+    blocks = [np.where(lag < K, b[np.minimum(lag, K - 1)], 0.0) for b in bands]
+    return scipy.linalg.block_diag(*blocks)
+
+
+def reference(case):
+    """Independent NumPy matrix of the operator of the case, from its JSON description alone (closed formulas;
+    no furax code).  None when the case has no such formula."""
+    e = case.get('e')
+    d = case.get('let', {}).get(e) if isinstance(e, str) else None
+    if d is None:
+        return None
+    k = d['k']
+    if k == 'toeplitz2' and 'shape' in d['s']:
+        return toeplitz_reference(np_arr(d['band']), d['s']['shape'])
+    if k == 'mix':
+        m = np.array(d['m'], dtype=np.float64)
+        return m + 1j * np.array(d['mi'], dtype=np.float64) if d.get('mi') is not None else m
+    leaves = desc_leaves(d['s']) if 's' in d else []
+    if k == 'uscale':
+        v = np_arr(d['v'])
+        return np.diag(np.concatenate([np.broadcast_to(v, tuple(l['shape'])).ravel() for l in leaves]))
+    if k == 'dense2':
+        b = np_arr(d['b'])
+        sub = d.get('sub') or 'ij...,j...->i...'
+        blocks_ = []
+        for l in leaves:
+            n = int(np.prod(l['shape'])) if l['shape'] else 1
+            cols = [np.einsum(sub, b, col.reshape(l['shape'])).ravel() for col in np.eye(n)]
+            blocks_.append(np.stack(cols, axis=1))
+        import scipy.linalg
+
+        return scipy.linalg.block_diag(*blocks_)
+    if k == 'homoth2':
+        v = d['v']
+        v = np_arr(v) if isinstance(v, dict) and 'dt' in v else py_scalar(v)
+        return v * np.eye(desc_size(d['s']))
+    return None
+
+
 def rows_json(m):
     return A.mat_json(A.frac_matrix(np.asarray(m, dtype=np.float64)))
 
@@ -427,7 +660,201 @@ class Check(PropertyCheck):
         for tag, s in lays:
             for c in self._layout_cases(rng, tag, s, 3 if quick else 4):
                 out.append(c)
+        # 7. the dtype scope: outputs wider than inputs, non-float32 data
+        out += self._dtype_cases(rng, quick)
+        # 8. the configuration scope: every evaluation method / tuning parameter
+        out += self._toeplitz_cases(rng, quick)
+        out += self._solver_cases(rng, quick)
         self.stats['operands'] = len(names)
+        return out
+
+    # -- dtype scope -------------------------------------------------------------------------------
+    # (parameter dtype, data dtype): the output dtype is the promotion of both
+    DTYPE_COMBOS = [(C64, F32), (F32, I32), (C64, I32), (F32, F16), (C64, C64), (I32, I32), (F32, C64), (F32, 'I32+F16')]
+    OUT_DTYPE = {(C64, F32): C64, (F32, I32): F32, (C64, I32): C64, (F32, F16): F32, (C64, C64): C64, (I32, I32): I32,
+                 (F32, C64): C64, (F32, 'I32+F16'): F32}
+    NOT_WIDER = {(C64, C64), (I32, I32), (F32, C64)}   # the parameters are absorbed by the data dtype
+
+    @staticmethod
+    def _pvals(rng, shape, pd, sd):
+        """Parameter values for which a cast to the data dtype is visible."""
+        n = int(np.prod(shape)) if shape else 1
+        nest = lambda vs: np.array(vs, dtype=np.float64).reshape(shape).tolist()  # noqa: E731
+        if pd == C64:
+            return {'re': nest([rng.choice([-2, -1, 0, 1, 2, 0.5]) for _ in range(n)]),
+                    'im': nest([rng.choice([-1.5, -1, 0.5, 1, 2]) for _ in range(n)]), 'dt': pd}
+        if pd == I32:
+            pool = [-2, -1, 1, 2, 3]
+        elif sd == F16 or sd == 'I32+F16':
+            pool = [2049, -2051, 4097, 0.5, 1.5]      # float16 holds integers up to 2048 only
+        elif sd == I32:
+            pool = [0.5, 1.5, -0.5, 2.5, -1.5]
+        else:
+            pool = [-2, -1, 1, 2, 0.5, 1.5]
+        return {'re': nest([rng.choice(pool) for _ in range(n)]), 'dt': pd}
+
+    def _dtype_family(self, rng, pd, sd):
+        """All cases of one (parameter dtype, data dtype) combination: (tag, let, expression, core?)."""
+        od = self.OUT_DTYPE[(pd, sd)]
+        dts = ['int32', 'float16'] if sd == 'I32+F16' else [sd, sd]
+        d0, d1 = dts
+        pv = lambda shape: self._pvals(rng, shape, pd, sd)  # noqa: E731
+        s1, s2 = leaf([3], d0), leaf([2, 3], d0)
+        spt = {'dict': {'b': leaf([3], d0), 'a': leaf([3, 2], d1)}}     # equal leading dimensions
+        spt2 = {'dict': {'b': leaf([3], d0), 'a': leaf([2, 3], d1)}}    # equal trailing dimensions
+        both_inexact = all(d != I32 for d in (d0, d1, od))
+        out = []
+
+        def add(tag, let, e='X', core=False):
+            out.append((tag, let, e, core))
+
+        W1 = {'k': 'dense2', 'b': pv([2, 3]), 's': s1, 'sub': 'ij,j->i'}
+        W1b = {'k': 'dense2', 'b': pv([2, 3]), 's': s1, 'sub': 'ij,j->i'}
+        US = {'k': 'uscale', 'v': pv([3]), 's': spt2}
+        # leaf classes whose declared output structure is the evaluation of mv
+        add('dense-ij', {'X': W1}, core=True)
+        add('dense-default-2d', {'X': {'k': 'dense2', 'b': pv([2, 2]), 's': s2}})
+        add('dense-batched', {'X': {'k': 'dense2', 'b': pv([2, 2, 3]), 's': s2, 'sub': 'imn,in->im'}})
+        add('dense-pytree', {'X': {'k': 'dense2', 'b': pv([2, 3]), 's': spt}}, core=True)
+        add('bdiag-left', {'X': {'k': 'bdiag2', 'v': pv([2, 3]), 'axis': -1, 's': s1}}, core=True)
+        add('bdiag-plain-pytree', {'X': {'k': 'bdiag2', 'v': pv([3]), 'axis': 0, 's': spt}})
+        add('bdiag-right', {'X': {'k': 'bdiag2', 'v': pv([3, 2]), 'axis': 0, 's': s1}})
+        add('user-scale', {'X': US}, core=True)
+        t = {'list': [leaf([], od), leaf([1, 2], od)]}
+        mix = {'k': 'mix', 'm': self._matrix(rng, 3, 9), 's': spt2, 't': t, 'mdt': pd}
+        if pd == C64:
+            mix['mi'] = [[rng.choice([-1, 0.5, 1, 2]) for _ in range(9)] for _ in range(3)]
+        elif pd == F32:
+            mix['m'] = self._pvals(rng, [3, 9], pd, sd)['re']
+        add('user-mix', {'X': mix})
+        # parameter-free classes and @square classes with parameters the data absorb
+        add('ident', {'X': {'k': 'ident', 's': spt}})
+        add('homoth-pyint', {'X': {'k': 'homoth2', 'v': 2, 's': spt}})
+        add('ravel', {'X': {'k': 'ravel', 's': s2}})
+        add('reshape', {'X': {'k': 'reshape', 'shape': [3, 2], 's': s2}})
+        add('index', {'X': {'k': 'index', 'idx': [{'arr': [2, 0, 2]}], 's': spt}})
+        add('moveaxis', {'X': {'k': 'moveaxis', 'src': 0, 'dst': 1, 's': s2}})
+        add('pack', {'X': {'k': 'pack', 'mask': [True, False, True], 's': s1}})
+        if (pd, sd) in self.NOT_WIDER:
+            add('homoth', {'X': {'k': 'homoth2', 'v': self._pvals(rng, [], pd, sd), 's': spt}}, core=True)
+            add('diag', {'X': {'k': 'diag2', 'v': pv([3]), 'axis': 0, 's': spt}}, core=True)
+            add('diag-last', {'X': {'k': 'diag2', 'v': pv([3]), 'axis': -1, 's': spt2}})
+            add('diag-nd', {'X': {'k': 'diag2', 'v': pv([2, 3]), 'axis': 0, 's': s2}})
+            if pd != I32:
+                add('diag-inverse', {'D': {'k': 'diag2', 'v': pv([3]), 'axis': 0, 's': spt}, 'X': {'k': 'expr', 'e': {'I': 'D'}}})
+            if pd == C64:
+                add('homoth-pycomplex', {'X': {'k': 'homoth2', 'v': {'re': 0.5, 'im': -1}, 's': spt}})
+        # composites over a wide leaf
+        N = {'k': 'homoth2', 'v': 2, 's': s1}
+        P = {'k': 'dense2', 'b': pv([2, 2]), 's': leaf([2], od), 'sub': 'ij,j->i'}
+        add('smul-int', {'W': W1, 'X': {'k': 'smul2', 'c': 2, 'of': 'W'}})
+        add('rmul-int', {'W': US, 'X': {'k': 'rmul2', 'c': -1, 'of': 'W'}})
+        if od == C64:
+            add('smul-complex', {'W': W1, 'X': {'k': 'smul2', 'c': {'re': 1, 'im': 0.5}, 'of': 'W'}}, core=True)
+        if od != I32:
+            add('div', {'W': W1, 'X': {'k': 'div2', 'c': 2, 'of': 'W'}})
+        add('comp-wide-after', {'W': W1, 'N': N, 'X': {'k': 'expr', 'e': {'comp': ['W', 'N']}}}, core=True)
+        add('mm-wide-first', {'W': W1, 'P': P, 'X': {'k': 'expr', 'e': {'mm': ['P', 'W']}}})
+        add('add', {'W': W1, 'V': W1b, 'X': {'k': 'expr', 'e': {'add': ['W', 'V']}}})
+        add('sum', {'W': W1, 'V': W1b, 'X': {'k': 'expr', 'e': {'sum': ['W', 'V', 'W']}}}, core=True)
+        add('row', {'W': W1, 'V': W1b, 'X': {'k': 'row', 'blocks': {'dict': {'q': 'W', 'c': 'V'}}}}, core=True)
+        add('bdiagop-mixed', {'W': W1, 'I': {'k': 'ident', 's': s1}, 'U': US,
+                              'X': {'k': 'bdiagop', 'blocks': {'dict': {'q': 'I', 'c': 'W', 'm': 'U'}}}}, core=True)
+        add('col-mixed', {'W': W1, 'I': {'k': 'ident', 's': s1}, 'X': {'k': 'col', 'blocks': ['I', 'W']}}, core=True)
+        add('nested-blocks', {'W': W1, 'V': W1b, 'N': N, 'R': {'k': 'row', 'blocks': ['W', 'V']},
+                              'X': {'k': 'bdiagop', 'blocks': {'tuple': ['N', 'R']}}})
+        add('dense-T', {'W': W1, 'X': {'k': 'expr', 'e': {'T': 'W'}}})
+        # jax.linear_transpose: inexact -> inexact or integer -> integer only; the transpose of a widening operator
+        # NARROWS (its output is the data dtype): only where that dtype holds the values exactly (not float16)
+        if both_inexact and F16 not in (d0, d1):
+            add('user-lazy-T', {'W': US, 'X': {'k': 'expr', 'e': {'T': 'W'}}})
+            add('bdiag-lazy-T', {'W': {'k': 'bdiag2', 'v': pv([2, 3]), 'axis': -1, 's': s1}, 'X': {'k': 'expr', 'e': {'T': 'W'}}})
+        return out
+
+    def _dtype_cases(self, rng, quick):
+        out = []
+        for pd, sd in self.DTYPE_COMBOS:
+            fam = self._dtype_family(rng, pd, sd)
+            if quick:
+                rest = [f for f in fam if not f[3]]
+                fam = [f for f in fam if f[3]] + rng.sample(rest, min(5, len(rest)))
+            for tag, let, e, _ in fam:
+                out.append({'kind': f'dtype-{tag}', 'dtypes': f'{pd} on {sd}', 'let': let, 'e': e})
+        return out
+
+    # -- configuration scope -----------------------------------------------------------------------
+    @staticmethod
+    def _band(rng, K, batch=None):
+        def one():
+            return [rng.choice([3, 4, 2.5])] + [rng.choice([-2, -1, 1, 2, 0.5, 1.5]) for _ in range(K - 1)]
+        return [one() for _ in range(batch)] if batch else one()
+
+    def _toeplitz_grid(self):
+        """(K, n, method, fft_size): the 4 methods (and the default one, None), explicit FFT sizes from the smallest
+        admissible 2K-1 (odd) upward, n below / at / far above K."""
+        grid = []
+        for K in (1, 2, 3, 4):
+            for n in (1, 2, 3, 5, 8, 13):
+                for m in ('dense', 'direct', 'fft', 'overlap_save', None):
+                    grid.append((K, n, m, None))
+                for f in range(2 * K - 1, 2 * K + 5):
+                    grid.append((K, n, 'overlap_save', f))
+                    grid.append((K, n, None, f))
+        return grid
+
+    def _toeplitz_cases(self, rng, quick):
+        grid = self._toeplitz_grid()
+        self.stats['toeplitz_configurations_in_scope'] = len(grid)
+        if quick:
+            core = [(K, n, 'overlap_save', f) for K in (2, 3, 4) for n in (K - 1, 3 * K + 2) for f in (2 * K - 1, 2 * K, 2 * K + 1)]
+            core += [(K, n, m, None) for K in (1, 3) for n in (2, 7) for m in ('dense', 'direct', 'fft', None)]
+            core += [(1, 4, None, f) for f in (1, 2, 3)]
+            grid = core + rng.sample([g for g in grid if g not in core], 14)
+        out = []
+        for K, n, m, f in grid:
+            d = {'k': 'toeplitz2', 'band': self._band(rng, K), 's': leaf([n]), 'method': m, 'fft': f}
+            out.append({'kind': 'toeplitz-config', 'configured': True, 'config': f'K={K} n={n} method={m} fft_size={f}', 'let': {'X': d}, 'e': 'X'})
+        # batched bands / data (block diagonal over the leading axes), every method, odd and even sizes
+        batched = []
+        for K, n in ((2, 5), (3, 4), (3, 2)):
+            for m, f in (('dense', None), ('direct', None), ('fft', None), ('overlap_save', None),
+                         ('overlap_save', 2 * K - 1), ('overlap_save', 2 * K), (None, 2 * K + 1)):
+                batched.append((K, n, m, f, True))
+                batched.append((K, n, m, f, False))
+        for K, n, m, f, per_row in (rng.sample(batched, 10) if quick else batched):
+            d = {'k': 'toeplitz2', 'band': self._band(rng, K, 2 if per_row else None), 's': leaf([2, n]), 'method': m, 'fft': f}
+            out.append({'kind': 'toeplitz-batched', 'configured': True, 'config': f'K={K} n={n} method={m} fft_size={f} band-per-row={per_row}', 'let': {'X': d}, 'e': 'X'})
+        # configured operators inside composites
+        for K, n, f in ((2, 4, 3), (3, 7, 5), (2, 6, 4)) if quick else ((2, 4, 3), (3, 7, 5), (2, 6, 4), (3, 4, 7), (4, 9, 7), (2, 9, 5)):
+            T = {'k': 'toeplitz2', 'band': self._band(rng, K), 's': leaf([n]), 'method': 'overlap_save', 'fft': f}
+            Td = {'k': 'toeplitz2', 'band': self._band(rng, K), 's': leaf([n]), 'method': rng.choice(['direct', 'fft', 'dense'])}
+            D = {'k': 'diag', 'v': [rng.choice([1, 2, -3, 4]) for _ in range(n)], 's': [n]}
+            form = rng.choice(['bdiagop', 'mm', 'sum', 'row'])
+            X = {'bdiagop': {'k': 'bdiagop', 'blocks': {'dict': {'t': 'T', 'd': 'D', 'a': 'Td'}}},
+                 'row': {'k': 'row', 'blocks': ['T', 'Td', 'D']},
+                 'mm': {'k': 'expr', 'e': {'chain': ['T', 'D', 'Td']}},
+                 'sum': {'k': 'expr', 'e': {'sum': ['T', 'Td', 'D']}}}[form]
+            out.append({'kind': f'toeplitz-in-{form}', 'configured': True, 'config': f'K={K} n={n} fft_size={f}', 'let': {'T': T, 'Td': Td, 'D': D, 'X': X}, 'e': 'X'})
+        return out
+
+    def _solver_cases(self, rng, quick):
+        """Lazy inverses under every linear solver of the configuration (InverseOperator.mv goes through the solver,
+        its as_matrix through jnp.linalg.inv)."""
+        spd = {'k': 'dense', 'm': [[4, 1, 0], [1, 3, 1], [0, 1, 2]]}
+        gen = {'k': 'dense', 'm': [[2, 1, 0], [0, 1, 1], [1, 0, 2]]}
+        pre = {'k': 'diag', 'v': [0.25, 0.5, 0.5], 's': [3]}
+        out = []
+        for solver in SOLVERS:
+            out.append({'kind': 'inverse-solver', 'configured': True, 'config': solver, 'let': {'S': spd, 'X': {'k': 'inv', 'of': 'S', 'solver': solver}}, 'e': 'X'})
+        for solver in ('CG', 'BiCGStab', 'GMRES'):
+            out.append({'kind': 'inverse-solver-preconditioned', 'configured': True, 'config': solver,
+                        'let': {'S': spd, 'P': pre, 'X': {'k': 'inv', 'of': 'S', 'solver': solver, 'precond': 'P'}}, 'e': 'X'})
+        # (lineax's BiCGStab breaks down on basis-vector right-hand sides of this matrix: a solver matter, not used)
+        for solver in ('GMRES', 'LU'):
+            out.append({'kind': 'inverse-solver-nonsymmetric', 'configured': True, 'config': solver, 'let': {'S': gen, 'X': {'k': 'inv', 'of': 'S', 'solver': solver}}, 'e': 'X'})
+        for solver in ('CG', 'LU'):
+            out.append({'kind': 'inverse-solver-in-block', 'configured': True, 'config': solver,
+                        'let': {'S': spd, 'V': {'k': 'inv', 'of': 'S', 'solver': solver}, 'X': {'k': 'bdiagop', 'blocks': {'dict': {'z': 'V', 'a': 'S'}}}}, 'e': 'X'})
         return out
 
     def _cls(self, name):
@@ -555,35 +982,52 @@ class Check(PropertyCheck):
             op = self.build(case)
         except Exception as ex:
             return {'build_error': f'{type(ex).__name__}: {str(ex)[:200]}'}
+        ins, outs = op.in_structure(), op.out_structure()
+        cplx = any(is_complex_dtype(l.dtype) for l in jax.tree.leaves(ins) + jax.tree.leaves(outs))
         enc = Enc()
-        term = enc.term(op)
+        term = None if cplx else enc.term(op)  # the executable model is over the rationals
         cls = classes_in(op)
-        approx = bool(cls & set(APPROX_CLASSES))
+        approx = is_approx(op)
         obs = {
-            'in': A.struct_repr(op.in_structure()), 'out': A.struct_repr(op.out_structure()),
-            'in_size': A.struct_size(op.in_structure()), 'out_size': A.struct_size(op.out_structure()),
-            'approx': approx, 'class': type(op).__name__,
+            'in': A.struct_repr(ins), 'out': A.struct_repr(outs),
+            'in_size': A.struct_size(ins), 'out_size': A.struct_size(outs),
+            'approx': approx, 'class': type(op).__name__, 'complex': cplx,
             'overrides': type(op).as_matrix is not ALO.as_matrix,
+            'wide': None, 'configured': bool(case.get('configured')),
         }
+        try:
+            obs['in_dtype'], obs['out_dtype'] = str(op.in_promoted_dtype), str(op.out_promoted_dtype)
+            obs['wide'] = obs['in_dtype'] != obs['out_dtype']
+        except Exception:  # structures without leaves
+            obs['in_dtype'] = obs['out_dtype'] = None
         mats = {}
-        for tag, f in (('mv', lambda: A.dense(op)), ('override', lambda: op.as_matrix()), ('generic', lambda: ALO.as_matrix(op))):
+        for tag, f in (('mv', lambda: cdense(op)), ('override', lambda: op.as_matrix()), ('generic', lambda: ALO.as_matrix(op))):
             try:
                 m = f()
-                obs[tag + '_dtype'] = str(m.dtype)
-                m = np.asarray(m, dtype=np.float64)
+                if tag == 'mv':
+                    m, obs['mv_dtype'] = m
+                else:
+                    obs[tag + '_dtype'] = str(m.dtype)
+                m = widen(m)
                 mats[tag] = m
                 obs[tag + '_shape'] = list(m.shape)
-                obs[tag] = rows_json(m)
+                obs[tag] = rows_json(m.real)
+                if np.iscomplexobj(m):
+                    obs[tag + '_im'] = rows_json(m.imag)
             except Exception as ex:
                 obs[tag] = None
                 obs[tag + '_error'] = f'{type(ex).__name__}: {str(ex)[:200]}'
-        # the property on the implementation (exact float comparison unless the case is approximate)
+        # the property on the implementation (exact comparison unless the case is approximate)
         obs['forms'] = self._compare_forms(mats, approx)
         obs['lin'] = self._linearity(op, mats.get('mv'), approx)
-        case['_term'] = term
-        case['_table'] = enc.table_coq()
-        case['_otable'] = enc.otable_coq()
-        case['_unsupported'] = enc.unsupported
+        obs['ref'] = self._reference(case, mats, approx)
+        if cplx:
+            case['_unsupported'] = 'complex dtypes: the executable model is over the rationals'
+        else:
+            case['_term'] = term
+            case['_table'] = enc.table_coq()
+            case['_otable'] = enc.otable_coq()
+            case['_unsupported'] = enc.unsupported
         return obs
 
     @staticmethod
@@ -594,6 +1038,13 @@ class Check(PropertyCheck):
             return bool(np.allclose(a, b, rtol=1e-4, atol=1e-4))
         return bool(np.array_equal(a, b))
 
+    @staticmethod
+    def _show(a):
+        a = np.asarray(a)
+        if np.iscomplexobj(a):
+            return str([[f'{v.real:g}{v.imag:+g}j' for v in r] for r in np.atleast_2d(a)] if a.ndim > 1 else [f'{v.real:g}{v.imag:+g}j' for v in a])
+        return str(a.tolist())
+
     def _compare_forms(self, mats, approx):
         bad = []
         mv = mats.get('mv')
@@ -602,11 +1053,28 @@ class Check(PropertyCheck):
         for tag in ('override', 'generic'):
             m = mats.get(tag)
             if m is not None and not self._close(m, mv, approx):
-                bad.append(f'{tag} {m.tolist()} != matrix of mv {mv.tolist()}')
+                bad.append(f'{tag} {self._show(m)} != matrix of mv {self._show(mv)}')
+        return bad
+
+    def _reference(self, case, mats, approx):
+        """The three dense forms against the closed-form NumPy matrix of the case (when there is one)."""
+        try:
+            ref = reference(case)
+        except Exception as ex:
+            return [f'reference raised {type(ex).__name__}: {str(ex)[:150]}']
+        if ref is None:
+            return []
+        ref = widen(ref)
+        bad = []
+        for tag in ('mv', 'override', 'generic'):
+            m = mats.get(tag)
+            if m is not None and not self._close(m, ref, approx):
+                bad.append(f'{tag} {self._show(m)} != NumPy reference {self._show(ref)}')
         return bad
 
     def _linearity(self, op, mv, approx):
-        """op(a x + b y) = a op(x) + b op(y) and op(x) = M flat(x), with small integer data."""
+        """op(a x + b y) = a op(x) + b op(y) and op(x) = M flat(x), with small integer data (complex integers on
+        complex leaves)."""
         j = A.J()
         jax, jnp = j['jax'], j['jnp']
         rs = np.random.RandomState(self.seed + 17)
@@ -614,9 +1082,13 @@ class Check(PropertyCheck):
         bad = []
 
         def rand():
-            return jax.tree.unflatten(
-                treedef, [jnp.asarray(rs.randint(-3, 4, size=l.shape).astype(np.dtype(l.dtype))) for l in leaves]
-            )
+            out = []
+            for l in leaves:
+                v = rs.randint(-3, 4, size=l.shape)
+                if is_complex_dtype(l.dtype):
+                    v = v + 1j * rs.randint(-3, 4, size=l.shape)
+                out.append(jnp.asarray(v.astype(np.dtype(l.dtype))))
+            return jax.tree.unflatten(treedef, out)
 
         for _ in range(2):
             x, y = rand(), rand()
@@ -628,14 +1100,14 @@ class Check(PropertyCheck):
                 if jax.tree.structure(fz) != jax.tree.structure(rhs):
                     bad.append('op(a x + b y) and a op(x) + b op(y) have different containers')
                     continue
-                lz, lr = A.flat(fz), A.flat(rhs)
+                lz, lr = cflat(fz), cflat(rhs)
                 if not self._close(lz, lr, approx):
-                    bad.append(f'op({a} x + {b} y) = {lz.tolist()} but {a} op(x) + {b} op(y) = {lr.tolist()} for x={A.flat(x).tolist()} y={A.flat(y).tolist()}')
+                    bad.append(f'op({a} x + {b} y) = {self._show(lz)} but {a} op(x) + {b} op(y) = {self._show(lr)} for x={self._show(cflat(x))} y={self._show(cflat(y))}')
                 if mv is not None:
-                    want = mv @ A.flat(x)
-                    got = A.flat(fx)
+                    want = mv @ cflat(x)
+                    got = cflat(fx)
                     if not self._close(got, want, approx):
-                        bad.append(f'op(x) = {got.tolist()} but matrix @ flat(x) = {want.tolist()} for x={A.flat(x).tolist()}')
+                        bad.append(f'op(x) = {self._show(got)} but matrix @ flat(x) = {self._show(want)} for x={self._show(cflat(x))}')
             except Exception as ex:
                 bad.append(f'probe raised {type(ex).__name__}: {str(ex)[:150]}')
         return bad
@@ -671,7 +1143,7 @@ class Check(PropertyCheck):
         return cs[:300]
 
     def nontrivial(self, case, obs):
-        return isinstance(obs, dict) and (obs.get('overrides') or len(_leaves(obs.get('in'))) > 1 or len(_leaves(obs.get('out'))) > 1)
+        return isinstance(obs, dict) and bool(obs.get('overrides') or obs.get('wide') or obs.get('configured') or len(_leaves(obs.get('in'))) > 1 or len(_leaves(obs.get('out'))) > 1)
 
     def finding_key(self, case, obs):
         return None
@@ -689,6 +1161,13 @@ class Check(PropertyCheck):
                 return f'{tag} as_matrix has shape {obs[tag + "_shape"]}, expected ({obs["out_size"]}, {obs["in_size"]})'
         if obs['forms']:
             return 'dense forms differ: ' + '; '.join(obs['forms'])[:1500]
+        if obs.get('ref'):
+            return 'dense form is not the closed-form matrix of the operator: ' + '; '.join(obs['ref'])[:1500]
+        if obs.get('mv_dtype'):
+            for tag in ('override', 'generic'):
+                if obs.get(tag + '_dtype') != obs['mv_dtype']:
+                    return (f'{tag} as_matrix has dtype {obs.get(tag + "_dtype")} but its columns op(e_j) have dtype '
+                            f'{obs["mv_dtype"]} (declared out_promoted_dtype {obs.get("out_dtype")})')
         if obs['lin']:
             return 'application is not the linear map of its matrix: ' + '; '.join(obs['lin'])[:1500]
         return None
